@@ -13,6 +13,27 @@ def worker(case, led):
     if su is None:
         return
     bt, order, model, H, sectors, rng = su["bt"], su["order"], su["model"], su["H"], su["sectors"], su["rng"]
+    # product states from a condition (TTNS(basis, condition)): the occupied local state of every degree of freedom, wherever it sits in its node
+    from renormalizer.tn import TTNS
+    dims = [b.nbas for b in order]
+    for trial in range(4):
+        occ = [0] * len(order) if trial == 0 else ([d - 1 for d in dims] if trial == 1 else [int(rng.integers(d)) for d in dims])
+        cond = {b.dofs[0]: k for b, k in zip(order, occ) if k or trial == 3}
+        key = (repr(su["shape"]), flavour, seed, "product", trial)
+        rep = dict(TU.describe_tree(bt), flavour=flavour, seed=seed, condition={repr(k): v for k, v in cond.items()})
+        try:
+            a = TTNS(bt, cond)
+        except Exception as e:
+            led.check(False, "post:TTNS.__init__:product_state_total", "TTNS.__init__", f"raised {type(e).__name__}: {e}", key, {}, rep)
+            continue
+        want = np.zeros(int(np.prod(dims)))
+        want[int(np.ravel_multi_index(occ, dims))] = 1.0
+        v = T.dense_ttns(a, order)
+        qexp = sum(np.asarray(b.sigmaqn[k]).reshape(-1) for b, k in zip(order, occ))
+        bad = T.qnv_tree_violations(a)
+        led.check(np.abs(v - want).max() <= 1e-14 and np.array_equal(np.asarray(a.qntot).reshape(-1), np.asarray(qexp).reshape(-1)) and not bad,
+                  "post:TTNS.__init__:product_state_in_its_sector_with_valid_labels", "TTNS.__init__",
+                  f"dense differs by {np.abs(v - want).max():.1e}; qntot {a.qntot} vs charge of the occupied local states {qexp}; labels {bad[:1]}", key, {"trial": trial}, rep)
     for q in sectors:           # every sector incl. empty / completely filled
         for m in (1, 3):
             a = TU.random_ttns(bt, q, m, rng)
